@@ -12,7 +12,6 @@ use slicec::grammar::*;
 #[derive(Default)]
 pub struct Scope;
 
-const MODS: [&str; 5] = ["A", "A::B", "A::B::C", "B", "A::C"];
 
 fn def_of(kind: &str) -> &'static str {
     match kind {
@@ -77,9 +76,11 @@ impl Family for Scope {
         let boxm = case["box"].as_u64().unwrap_or(0) as usize;
         let pos = case["pos"].as_str().unwrap_or("field");
         let mut files: Vec<String> = Vec::new();
+        // the module paths are the model's (transmitted with every case)
+        let mods: Vec<String> = case["mods"].as_array().cloned().unwrap_or_default().iter().map(|m| strs(m).join("::")).collect();
         for (i, kind) in placed.iter().enumerate() {
             if kind != "none" || boxm == i + 1 {
-                let mut text = format!("module {}\n", MODS[i]);
+                let mut text = format!("module {}\n", mods[i]);
                 text.push_str(def_of(kind));
                 if boxm == i + 1 {
                     text.push_str("struct Box { T: bool }\n");
